@@ -494,6 +494,121 @@ def r11_14(run):
     run.floor('R11.14', '_ListWrapper constructions in save', k, 1)
 
 
+def _from_pending(u):
+    """local names of u whose value comes out of the pending set (self.unsaved), by fixpoint over assignments and loop targets"""
+    def pend(e, tainted):
+        t = src(e)
+        return 'self.unsaved' in t or "__dict__['unsaved']" in t or any(isinstance(x, ast.Name) and x.id in tainted for x in ast.walk(e))
+    tainted = set()
+    while True:
+        before = len(tainted)
+        for n in walk_unit(u):
+            if isinstance(n, (ast.For, ast.comprehension)) and pend(n.iter, tainted):
+                tainted.update(x.id for x in ast.walk(n.target) if isinstance(x, ast.Name))
+            elif isinstance(n, ast.Assign) and pend(n.value, tainted):
+                for t in n.targets:
+                    tainted.update(x.id for x in ast.walk(t) if isinstance(x, ast.Name) and isinstance(x.ctx, ast.Store))
+        if len(tainted) == before:
+            return tainted
+
+
+def r11_15(run):
+    """the view (self.config) equals Tor's configuration: it takes a *pending* value only inside save(), at the moment that value
+    is put into the SETCONF.  Any other method that copies from self.unsaved into self.config publishes values Tor was never sent
+    (an acknowledgement callback reads the pending set at completion time - it also holds what was assigned while the SETCONF
+    was in flight)"""
+    tc = TC(run)
+    sv = CU(run, 'save')
+    k = 0
+    for u in [m for c in run.idx.mro(tc) for m in c.methods.values()]:
+        if u is sv or u.name in ('__init__',):
+            continue
+        tainted = None
+        for n in walk_unit(u):
+            stores = []
+            if isinstance(n, ast.Assign):
+                stores = [(t, n.value) for t in n.targets if isinstance(t, ast.Subscript) and dotted(t.value) in ('self.config', "self.__dict__['config']")]
+            elif isinstance(n, ast.Call) and callee_attr(n) in ('update', 'setdefault', '__setitem__') and dotted(n.func.value) == 'self.config' and n.args:
+                stores = [(n, n.args[-1])]
+            for t, v in stores:
+                k += 1
+                if tainted is None:
+                    tainted = _from_pending(u)
+                bad = 'self.unsaved' in src(v) or any(isinstance(x, ast.Name) and x.id in tainted for x in ast.walk(v))
+                run.ob('R11.15', u, n, 'a store into the view outside save() does not take its value from the pending set', not bad, slot='publish-pending@%s' % u.name,
+                       message='%s writes %s into the view from the pending set: values assigned while a SETCONF was in flight (never sent to Tor) '
+                               'become what reads return, and the pending state is then cleared' % (u.name, src(v)[:50]))
+    run.floor('R11.15', 'stores into the view outside save()', k, 6)
+
+
+def const_str(e):
+    return e.value if isinstance(e, ast.Constant) and isinstance(e.value, str) else None
+
+
+def _mode_key(run):
+    """the 'no Tor yet' mode flag: the string key K tested as `K in self.__dict__` by __getattr__ before it answers from the pending set"""
+    ga = CU(run, '__getattr__')
+    keys = set()
+    for n in walk_unit(ga):
+        if isinstance(n, ast.Compare) and len(n.ops) == 1 and isinstance(n.ops[0], (ast.In, ast.NotIn)) and isinstance(n.left, ast.Constant) \
+                and isinstance(n.left.value, str) and dotted(n.comparators[0]) in ('self.__dict__', 'o.__dict__'):
+            keys.add(n.left.value)
+    if len(keys) != 1:
+        raise Undecided('__getattr__: mode flag not recognised (%s)' % sorted(keys))
+    return keys.pop()
+
+
+def _clears(run, a, key, depth=0):
+    """statement/expression a removes self.__dict__[key] (directly, or by an unconditional statement of a called self method)"""
+    for x in ast.walk(a):
+        if isinstance(x, ast.Delete) and any(isinstance(t, ast.Subscript) and dotted(t.value) == 'self.__dict__' and const_str(t.slice) == key for t in x.targets):
+            return True
+        if isinstance(x, ast.Call) and callee_attr(x) == 'pop' and dotted(x.func.value) == 'self.__dict__' and x.args and const_str(x.args[0]) == key:
+            return True
+        if isinstance(x, ast.Call) and isinstance(x.func, ast.Attribute) and dotted(x.func.value) == 'self' and depth < 2:
+            m = run.idx.find_method(TC(run), x.func.attr)
+            if m is not None and any(_clears(run, st, key, depth + 1) for st in m.node.body if not isinstance(st, (ast.If, ast.For, ast.While, ast.Try, ast.FunctionDef))):
+                return True
+    return False
+
+
+def r11_16(run):
+    """a TorConfig made without a protocol answers reads from the *pending* set and skips validation ("accept all" mode, for
+    launch()); attaching it to a Tor must end that mode - otherwise the view keeps reporting local assignments instead of what Tor
+    returned and sends unvalidated values.  Typestate: every normal path through a method that installs a protocol removes the flag"""
+    key = _mode_key(run)
+    tc = TC(run)
+    k = 0
+    for u in [m for c in run.idx.mro(tc) for m in c.methods.values()]:
+        if u.name == '__init__':
+            continue
+        inst = [n for n in walk_unit(u) if isinstance(n, ast.Assign) and any(isinstance(t, ast.Subscript) and dotted(t.value) == 'self.__dict__' and const_str(t.slice) == '_protocol'
+                                                                            for t in n.targets) and not (isinstance(n.value, ast.Constant) and n.value.value is None)]
+        if not inst:
+            continue
+        g = cfg_of(u)
+        for a in inst:
+            for n in g.nodes_containing(a):
+                k += 1
+                r = g.reachable([g.entry], avoid=lambda x: x.ast is not None and x.kind == 'stmt' and _clears(run, x.ast, key), follow_exc=False)
+                through = n in r
+                esc = [e for e in g.normal_exits() if e in r] if through else []
+                # the path must also contain the installation: entry ->* n ->* exit without a clearing node
+                if esc:
+                    r2 = g.reachable([n], avoid=lambda x: x.ast is not None and x.kind == 'stmt' and _clears(run, x.ast, key), follow_exc=False)
+                    esc = [e for e in g.normal_exits() if e in r2]
+                run.ob('R11.16', u, a, 'installing a protocol ends accept-all mode on every normal path', not esc, slot='leave-accept-all@%s' % u.name,
+                       message="%s installs a protocol but can return with %r still in __dict__: reads keep answering from the pending set, "
+                               "assignments skip the option type's validate()" % (u.name, key))
+    run.floor('R11.16', 'protocol installations outside __init__', k, 1)
+    # and only the constructor enters the mode
+    for u in [m for c in run.idx.mro(tc) for m in c.methods.values()]:
+        for n in walk_unit(u):
+            if isinstance(n, ast.Assign) and any(isinstance(t, ast.Subscript) and dotted(t.value) == 'self.__dict__' and const_str(t.slice) == key for t in n.targets):
+                run.ob('R11.16', u, n, 'accept-all mode is entered only by the constructor', u.name == '__init__', slot='enter-accept-all@%s' % u.name,
+                       message='%s switches the view to accept-all mode' % u.name)
+
+
 def r11_8(run):
     from . import c10
     c10.wrapper_callbacks(run, 'R11.8')
@@ -792,6 +907,8 @@ RULES = [
     ('R11.12', 'a change event is applied to every option it names; bootstrap answers are not published late in bulk', r11_12),
     ('R11.13', 'bootstrap: on every answer-to-store path on which the option is set, the stored value depends on the GETCONF answer (path dependency walk)', r11_13),
     ('R11.14', 'save() re-wraps only non-list values (a pending tracked list keeps its identity in the view)', r11_14),
+    ('R11.15', 'who may publish: outside save() no store into self.config takes its value from self.unsaved', r11_15),
+    ('R11.16', 'mode typestate: a method that installs a protocol leaves accept-all mode on every normal path; only __init__ enters it', r11_16),
     ('R11.6', 'no dropped Deferred in the configuration bootstrap (every GETCONF is awaited before the view is declared ready)', r11_6),
     ('R11.5', 'sibling agreement: default lookup + parse on the unset leg in _do_setup and _conf_changed; key-form agreement of list_parsers writers/reader', r11_5),
     ('R11.1', 'store-site typing: every value stored under a Tor option key that may be list-typed is a _ListWrapper (or excluded by a dominating test / copied from the wrapped pending set)', r11_1),
@@ -803,6 +920,9 @@ RULES = [
 from ..selftest import M  # noqa: E402
 F = 'txtorcon/torconfig.py'
 MUTANTS = [
+    M('ack-publishes-pending', F, "        '''internal callback'''\n        self.__dict__['unsaved'] = {}", "        '''internal callback'''\n        for (key, value) in self.unsaved.items():\n            if isinstance(value, _ListWrapper):\n                self.config[self._find_real_name(key)] = value\n        self.__dict__['unsaved'] = {}", ['R11.15']),
+    M('attach-stays-accept-all', F, "        del self.__dict__['_accept_all_']\n", "", ['R11.16']),
+    M('attach-leaves-mode-only-when-bootstrapping', F, "        del self.__dict__['_accept_all_']\n        self.__dict__['post_bootstrap'] = defer.Deferred()\n        if proto.post_bootstrap:\n", "        self.__dict__['post_bootstrap'] = defer.Deferred()\n        if proto.post_bootstrap:\n            del self.__dict__['_accept_all_']\n", ['R11.16']),
     M('save-rewraps-tracked-lists', F, "                if isinstance(value, list):\n                    value = _ListWrapper(\n                        value, functools.partial(self.mark_unsaved, real_name))\n            self.config[real_name] = value", "            if isinstance(value, list):\n                value = _ListWrapper(\n                    value, functools.partial(self.mark_unsaved, real_name))\n            self.config[real_name] = value", ['R11.14']),
     M('helper-signature-changed-one-site', F, "    def _find_real_name(self, name):\n", "    def _find_real_name(self, name, strict):\n", ['R-X']),
     M('event-skips-pending-options', F, "            real_name = self._find_real_name(k)\n            if real_name in self.list_parsers:", "            real_name = self._find_real_name(k)\n            if real_name in self.unsaved:\n                continue\n            if real_name in self.list_parsers:", ['R11.12']),
